@@ -129,15 +129,24 @@ func acquireLock(lockPath string) (*os.File, error) {
 		return nil, fmt.Errorf("failed to create lock directory: %w", err)
 	}
 
-	lockFile, err := os.OpenFile(lockPath, os.O_CREATE|os.O_WRONLY, 0644)
-	if err != nil {
-		return nil, fmt.Errorf("failed to create lock file: %w", err)
-	}
-	if err := syscall.Flock(int(lockFile.Fd()), syscall.LOCK_EX); err != nil {
+	for {
+		lockFile, err := os.OpenFile(lockPath, os.O_CREATE|os.O_WRONLY, 0644)
+		if err != nil {
+			return nil, fmt.Errorf("failed to create lock file: %w", err)
+		}
+		if err := syscall.Flock(int(lockFile.Fd()), syscall.LOCK_EX); err != nil {
+			lockFile.Close()
+			return nil, fmt.Errorf("failed to acquire lock: %w", err)
+		}
+		// The previous holder removes the path before unlocking, so the file we
+		// locked may no longer be the one the path names: lock that one instead.
+		held, err1 := lockFile.Stat()
+		named, err2 := os.Stat(lockPath)
+		if err1 == nil && err2 == nil && os.SameFile(held, named) {
+			return lockFile, nil
+		}
 		lockFile.Close()
-		return nil, fmt.Errorf("failed to acquire lock: %w", err)
 	}
-	return lockFile, nil
 }
 
 // releaseLock unlocks and removes the lock file
@@ -145,10 +154,11 @@ func releaseLock(lockFile *os.File) error {
 	if lockFile == nil {
 		return nil
 	}
-	lockPath := lockFile.Name()
+	// Remove the path while the lock is still held: a process that opened the
+	// file before this point notices in acquireLock that it locked a stale file.
+	os.Remove(lockFile.Name())
 	syscall.Flock(int(lockFile.Fd()), syscall.LOCK_UN)
 	lockFile.Close()
-	os.Remove(lockPath)
 	return nil
 }
 
